@@ -23,6 +23,9 @@ expression is evaluated; early-evaluated constructor calls are followed to the d
                          the explicit reuse flag — not a file-system probe — selects the source;
   `secret_sources_explicit` (`decide`) over Generated.secretSources (every draw that is one of several alternative sources
                          of a variable, with the kind of its guard); `current_tree_file_fresh`.
+* `artifacts_fresh_iff`  (phase 2) one call serving several artifacts: the artifacts of all calls of a history get pairwise
+                         different values ⇔ the draw / drawing constructor call is inside the artifact loop;
+  `sites_per_artifact`   (`decide`) over Generated.loopUses; `current_tree_artifacts_fresh`.
 * `kept_value_shares`    the boundary of the model: a value kept from another artifact (re-used builder object, cache)
                          always violates the property; detected at run time (trace flag), not by the site table.
 * `ctr_pair_unique`      corollary: no two artifacts of any history feed the same (key, nonce) to AES-CTR
@@ -35,6 +38,7 @@ import SpsdkVerif.Generated.SecretSites
 import SpsdkVerif.Proofs.FreshObj
 import SpsdkVerif.Generated.SecretState
 import SpsdkVerif.Proofs.FreshFile
+import SpsdkVerif.Proofs.FreshLoop
 
 namespace SpsdkVerif.C17
 open SpsdkVerif.Fresh
@@ -207,7 +211,40 @@ theorem current_tree_file_fresh (r : SourceChoice) (hr : r ∈ Generated.secretS
     SafeF (runF r.guard init h) :=
   (file_fresh_iff r.guard).mpr (secret_sources_explicit r hr) init h
 
+/-! ### Several artifacts from one call (phase 2): Model/FreshLoop.lean, Generated.loopUses -/
+
+/-- **The artifacts of one call — and of all calls of a history — get pairwise different values ⇔ the draw is inside the
+    artifact loop.**  For all histories of calls and all numbers of artifacts per call. -/
+theorem artifacts_fresh_iff (inside : Bool) :
+    (∀ h : List Nat, (runCalls inside h 0).Pairwise (· ≠ ·)) ↔ inside = true := by
+  constructor
+  · intro hall
+    cases inside with
+    | true => rfl
+    | false =>
+      exfalso
+      have h := hall [2]
+      revert h
+      decide
+  · rintro rfl h
+    exact (runCalls_inside_sorted h 0).2.imp (fun hlt => Nat.ne_of_lt hlt)
+
+/-- **The obligation on the current tree**: wherever a value that was drawn (or an object whose constructor draws) is handed
+    to something inside a `for` loop over a collection, it is defined inside that loop (fails when `kib = BeeKIB()` is
+    hoisted out of the per-engine loop of `BeeNxp.load_from_config`, the seeded change C17d). -/
+theorem sites_per_artifact : ∀ r ∈ Generated.loopUses, r.inside = true := by decide
+
+theorem current_tree_artifacts_fresh (r : LoopUse) (hr : r ∈ Generated.loopUses) (h : List Nat) :
+    (runCalls r.inside h 0).Pairwise (· ≠ ·) :=
+  (artifacts_fresh_iff r.inside).mpr (sites_per_artifact r hr) h
+
 /-! ### Sanity checks / non-vacuity -/
+
+-- the loop table covers the multi-artifact builders BEE (engines) and IEE (key blobs) …
+example : ∀ k ∈ [Kind.bee, .iee], ∃ r ∈ Generated.loopUses, r.kind = k := by decide
+-- … C17d in the model: both engines of one call get the same KIB, the next call another one
+example : runCalls false [2, 1] 0 = [0, 0, 1] := by decide
+example : runCalls true [2, 0, 1, 3] 0 = [0, 1, 2, 3, 4, 5] := by decide
 
 -- the table of alternative sources contains the one site whose alternative is a file (HAB DEK) …
 example : ∃ r ∈ Generated.secretSources, r.kind = .hab ∧ r.altFile = true := by decide
